@@ -376,9 +376,52 @@ def c10(prop, tier):
     elems = [("U32", "tinyfield")] if tier == "quick" else [("U32", "tinyfield"), ("U64", "bn254")]
     jobs = [Job("lookup-cache-" + e, "./constraint", ["prelude_sym.go", "prelude_elem_sym.go", "c06_sparse.go", "c10_lookup.go"],
                 {"PKGNAME": "constraint", "ELEMTYPE": e, "ELEMFR": fr_pkg(f)}, model="gfp:13", entries=["verifHarness_lookupSequential", "verifHarness_lookupInterleaved"]) for e, f in elems]
+    for c in (["bn254"] if tier == "quick" else CURVES):
+        jobs.append(Job("groth16-options-" + c, "./backend/groth16/" + c, ["prelude_sym.go", "c10_opts_groth16.go"], {"PKGNAME": "groth16", "CURVE": c, "GROTHPKG": "github.com/consensys/gnark/backend/groth16/" + c}))
+        jobs.append(Job("plonk-options-" + c, "./backend/plonk/" + c, ["prelude_sym.go", "c10_opts_plonk.go"], {"PKGNAME": "plonk", "CURVE": c, "PLONKPKG": "github.com/consensys/gnark/backend/plonk/" + c}))
     return run_property(prop, tier, jobs,
                         title="C10: two solves sharing one compiled system execute the real Reset()/Solve() of the stateful lookup blueprint as atomic blocks under every interleaving (symbolic schedule) with symbolic witnesses; each must get its own table entries. Also: sequential re-use (Reset restores the initial state).",
                         design_ref="DESIGN.md §3 C10",
                         assumptions=["block-level atomicity of Reset() and Solve() (sub-block data races are the race detector's domain)", "abstract Solver with the contract checked in C06"],
-                        outside=["goroutine pipelines of the provers", "sync.Pool internals", "option-slice aliasing (planned)"],
+                        outside=["goroutine pipelines of the provers", "sync.Pool internals", "newSolver's GKR option handling"],
                         finding_matcher=essa_matcher)
+
+
+def c09(prop, tier):
+    fields = ["tinyfield", "bn254"] if tier == "quick" else ["tinyfield", "babybear", "koalabear"] + CURVES
+    jobs = [Job("core", "./constraint", ["prelude_sym.go", "c09_core.go"], {"PKGNAME": "constraint"})]
+    for f in fields:
+        jobs.append(Job("coeff-" + f, "./constraint/" + f, ["prelude_sym.go", "prelude_fr_sym.go", "c09_coeff.go"], {"PKGNAME": "cs", "FRPKG": fr_pkg(f)}, model="gfp:13"))
+    return run_property(prop, tier, jobs,
+                        title="C09 (in-repo binary layers only): section header, calldata varint codec and coefficient table codec round-trip for symbolic contents, re-encoding reproduces the same bytes, sizes are as reported.",
+                        design_ref="DESIGN.md §3 C09",
+                        assumptions=["encoding/binary is interpreted from its SSA", "element words are opaque machine words for the coefficient codec (it only copies words)"],
+                        outside=["CBOR body, intcomp-compressed levels/instructions, curve point codecs, proving/verifying keys, behavioural equivalence of whole decoded systems (third-party table-driven codecs)",
+                                 "observation (not part of the property): System.FromBytes sums the four section lengths as int before slicing with uint64 arithmetic; lengths >= 2^63 wrap the check and panic in the slice expression"])
+
+
+def c02(prop, tier):
+    curves = ["bn254"] if tier == "quick" else CURVES
+    jobs = []
+    for c in curves:
+        jobs.append(Job("perm-" + c, "./backend/plonk/" + c, ["prelude_sym.go", "c02_perm.go"], {"PKGNAME": "plonk", "CURVE": c}))
+        jobs.append(Job("verify-" + c, "./backend/plonk/" + c, ["prelude_sym.go", "prelude_fr_sym.go", "c08_plonk.go"], plonk_subst(c)))
+    return run_property(prop, tier, jobs,
+                        title="C02 (verifier shape + key structure): PLONK Verify accepts only structurally complete proofs for every shape within the bounds; buildPermutation's cycles are exactly the classes of equal wires for every symbolic wiring (public placeholder and padding rows included).",
+                        design_ref="DESIGN.md §3 C02",
+                        assumptions=["Setup invariants on the key", "opaque crypto stubs with gnark-crypto's length contracts"],
+                        outside=["KZG / AGM soundness", "the verifier's polynomial identities (algebra-model check planned)", "computePermutationPolynomials and commitTrace (FFT/MSM)", "the prover"])
+
+
+def c20(prop, tier):
+    curves = ["bn254"] if tier == "quick" else CURVES
+    jobs = [Job("plonk-blinding-" + c, "./backend/plonk/" + c, ["prelude_sym.go", "prelude_fr_sym.go", "c20_plonk.go"],
+                {"PKGNAME": "plonk", "CURVEPKG": "github.com/consensys/gnark-crypto/ecc/" + c, "FRPKG": fr_pkg(c)}) for c in curves]
+    reach = {"verifHarness_randomPolynomial": ["coefficients-independent", "second-polynomial-differs", "random-polynomial"],
+             "verifHarness_blindingOrders": ["all-blinding-coefficients-nonzero", "orders"], "verifHarness_blindedCoefficients": ["blinded-coefficients"]}
+    return run_property(prop, tier, jobs,
+                        title="C20 (PLONK prover, data-flow of the blinding): SetRandom is a fresh symbolic draw per call; blinding polynomials have degrees 1,1,1,2 with independent coefficients; the blinded coefficient vector is exactly p + b*(X^n-1).",
+                        design_ref="DESIGN.md §3 C20",
+                        assumptions=["fr.Element.SetRandom returns an independent uniform draw (stub: fresh symbol)"],
+                        outside=["Groth16 r/s blinding in Prove (goroutine pipeline)", "entropy statements", "commitment hint randomisation (frontend Commit mask)", "commitBlindingFactor / evaluateBlinded (MSM / Horner on gnark-crypto polynomials)"],
+                        expect_reach=reach)
